@@ -129,7 +129,7 @@ def gen_cases(tier, seed):
                    'types': [{'name': f'T{i}', 'sources': list(s)}
                              for i, s in enumerate(combo)],
                    'prefix': 'init_', 'sub_prefix': None}
-    n = 3000 if tier == 'quick' else 16 * 5000
+    n = 4000 if tier == 'quick' else 16 * 5000
     for i in range(n):
         rng = random.Random(f'C19/{seed}/{tier}/{i}')
         k = i % 10
